@@ -851,6 +851,8 @@ def to_set(engine, st, x):
         yield st, sv_set(x.t[0], x.ty.k if isinstance(x.ty, TDict) else TAny)
     elif x.kind == "view" and "as_set" in x.t:
         yield from x.t["as_set"](engine, st)
+    elif x.kind == "view" and "plan" in x.t:
+        yield from view_to_set(engine, st, x)
     elif x.kind == "genexp":
         from .loops import genexp_to
 
@@ -860,6 +862,29 @@ def to_set(engine, st, x):
         yield from to_set(engine, st1, u)
     else:
         raise OutsideSubset(f"set() of {x.kind}")
+
+
+def view_to_set(engine, st, view):
+    """the set of elements an iterable view (graph views, products, ...) hands out: built from its iteration plan"""
+    from .loops import _invert
+
+    for st1, plan in view.t["plan"](engine, st):
+        if isinstance(plan, Raised):
+            yield st1, plan
+            continue
+        if plan.kind != "setlike":
+            raise OutsideSubset("set()/list() of an ordered view")
+        st2, elt = plan.decode(st1)
+        f = Facts()
+        b = box(elt, f)
+        inv = _invert(b, plan.vars)
+        if inv is not None:
+            y, g, sub = inv
+            body = And(g, z3.substitute(plan.mem, *sub))
+        else:
+            y = S.fresh("y", V)
+            body = z3.Exists(plan.vars, And(plan.mem, b == y))
+        yield st2.with_facts(f), sv_set(z3.Lambda([y], body), elt.ty)
 
 
 def to_list(engine, st, x):
@@ -883,6 +908,12 @@ def to_list(engine, st, x):
     elif x.kind == "view" and "as_set" in x.t:
         for st1, s in x.t["as_set"](engine, st):
             yield from to_list(engine, st1, s)
+    elif x.kind == "view" and "plan" in x.t:
+        for st1, s_ in view_to_set(engine, st, x):
+            if isinstance(s_, Raised):
+                yield st1, s_
+            else:
+                yield from to_list(engine, st1, s_)
     elif x.kind == "genexp":
         from .loops import genexp_to
 
@@ -1038,6 +1069,26 @@ def isinstance_term(engine, x, names):
 def b_isinstance(engine, st, args, kwargs, node):
     x, c = args
     yield st, sv_bool(isinstance_term(engine, x, _class_names(engine, c)))
+
+
+def b_issubclass(engine, st, args, kwargs, node):
+    """issubclass(c, base): decided for two concrete classes of the package / exception table, otherwise an arbitrary
+    Boolean (a class VALUE such as __exit__'s exc_type is any class)"""
+    c, base = args
+    names = _class_names(engine, base) if base.kind in ("class", "tuple") else None
+    if c.kind == "class" and names is not None:
+        cur, seen = c.t, set()
+        ok = False
+        while cur is not None and cur not in seen:
+            seen.add(cur)
+            if cur in names:
+                ok = True
+                break
+            ci = engine.repo.classes.get(cur)
+            cur = engine.exc_parent.get(cur) or (ci.bases[0] if ci is not None and getattr(ci, "bases", None) else None)
+        yield st, sv_bool(ok)
+        return
+    yield st, sv_bool(S.fresh("issubclass", S.Bool))
 
 
 def b_getattr(engine, st, args, kwargs, node):
@@ -1353,6 +1404,7 @@ BUILTINS = {
     "bool": b_bool,
     "int": b_int,
     "isinstance": b_isinstance,
+    "issubclass": b_issubclass,
     "getattr": b_getattr,
     "hasattr": b_hasattr,
     "sorted": b_sorted,
